@@ -370,9 +370,23 @@ def r8(ctx, facts):
         raise AnchorLost("fetch_one_page: no filter over the load-balancing plan (Plan::new(..).filter(..)) found")
 
 
+def r9(ctx, facts):
+    """shared with C02 (stated there in full): a page request abandoned in flight must keep its stream id reserved, otherwise its late page is handed to a later page request"""
+    r = ctx.rule("R9", "a late page of an abandoned attempt cannot be taken for the answer to a later page request: stream ids are released only when their response arrives", floor=1)
+    from ..util import callers_keys
+    free = sorted(set(callers_keys(facts, "scylla::network::connection::StreamIdSet::free")))
+    r.instance("stream-id-freed-only-by-its-response", free == ["ResponseHandlerMap::lookup"],
+               "StreamIdSet::free is called from %s (must be ResponseHandlerMap::lookup only): if abandoning a request frees its id, the next page request reuses it and the late page of the "
+               "abandoned attempt is delivered as its answer - rows repeat and the cursor rewinds" % free)
+    lb = facts.one(r"^scylla::network::connection::ResponseHandlerMap::lookup$")
+    fr = lb.calls_to("StreamIdSet::free")
+    r.instance("lookup-frees-unconditionally", bool(fr) and all(lb.dominates(c.bb, x) for c in fr for x in lb.exits),
+               "ResponseHandlerMap::lookup must release the stream id of EVERY response it is shown (orphaned or not): the release is the only one there is", fr[0].span if fr else lb.span)
+
+
 def check(ctx):
     facts = inline_view(ctx.facts("default"))
-    for fn in (r1, r2, r3, r4, r5, r6, r7, r8):
+    for fn in (r1, r2, r3, r4, r5, r6, r7, r8, r9):
         try:
             fn(ctx, facts)
         except AnchorLost as ex:
